@@ -224,3 +224,48 @@ opt-level = 2
     if p.returncode != 0:
         raise RuntimeError(p.stdout + p.stderr)
     return os.path.join(d, "target/release/scanvalidator")
+
+
+def tc_items():
+    """`FmtAttribute`, `FmtAttribute::transparent_call`, `FmtArgument` cut verbatim out of impl/src/fmt/mod.rs"""
+    src = open(os.path.join(common.REPO, "impl/src/fmt/mod.rs")).read()
+    st = cut_item(src, r"^struct FmtAttribute\b")
+    tc = cut_item(src, r"^    fn transparent_call\(&self\)")
+    fa = cut_item(src, r"^struct FmtArgument\b")
+    if st is None or tc is None or fa is None:
+        return None
+    text = st + "\n\nimpl FmtAttribute {\n" + tc + "\n}\n\n" + fa
+    return "\n".join("    " + l if l.strip() else l for l in text.split("\n"))
+
+
+def build_tc_wrapper(scratch):
+    import time
+    t0 = time.time()
+    d = os.path.join(scratch, "tcprobe")
+    S = os.path.join(RUST, "scan")
+    os.makedirs(os.path.join(d, "src"))
+    for sh in ("shim_pm2", "shim_quote", "shim_syn"):
+        shutil.copytree(os.path.join(S, sh), os.path.join(d, sh))
+    items = tc_items()
+    if items is None:
+        raise RuntimeError("could not cut FmtAttribute / transparent_call / FmtArgument out of impl/src/fmt/mod.rs")
+    tpl = open(os.path.join(RUST, "tc", "probe_tc.rs")).read()
+    tpl = tpl.replace("@SCANNER_RS@", os.path.join(common.REPO, "impl/src/parsing.rs"))
+    tpl = tpl.replace("@FMT_PARSING_RS@", os.path.join(common.REPO, "impl/src/fmt/parsing.rs"))
+    tpl = tpl.replace("@ORACLE_RS@", os.path.join(RUST, "oracle.rs")).replace("@ITEMS@", items)
+    open(os.path.join(d, "src/lib.rs"), "w").write(tpl)
+    deps = ('syn = { path = "shim_syn" }\nquote = { path = "shim_quote" }\nproc-macro2 = { path = "shim_pm2" }\nunicode-xid = "=%s"' % unicode_xid_version())
+    open(os.path.join(d, "Cargo.toml"), "w").write(CARGO_TOML % dict(name="tcprobe", deps=deps))
+    os.makedirs(os.path.join(d, ".cargo"))
+    open(os.path.join(d, ".cargo/config.toml"), "w").write("[net]\noffline = true\n")
+    env = dict(os.environ, CARGO_NET_OFFLINE="true", CARGO_TERM_COLOR="never")
+    env.pop("RUSTFLAGS", None)
+    p = subprocess.run(["cargo", "rustc", "--release", "--offline", "--lib", "--", "--emit=llvm-ir", "-C", "no-vectorize-loops",
+                        "-C", "no-vectorize-slp"], cwd=d, env=env, capture_output=True, text=True)
+    if p.returncode != 0:
+        raise RuntimeError(p.stdout + p.stderr)
+    lls = sorted(glob.glob(os.path.join(d, "target/release/deps/tcprobe*.ll")), key=os.path.getsize)
+    sos = glob.glob(os.path.join(d, "target/release/libtcprobe.so"))
+    if not lls or not sos:
+        raise RuntimeError("build produced no .ll / .so: " + p.stderr[-2000:])
+    return dict(ll=lls[-1], so=sos[0], dir=d, build_s=time.time() - t0)
